@@ -164,6 +164,10 @@ class Runner:
             for p, gr in zip(self.params[gi], grads[gi]):
                 p.grad = None if gr is None else gr.clone()
         self._tensors = [realopt.block_state_tensors(opt, gi) for gi in range(self.ng)]
+        self._prev_param = [{b: (t_.to_local() if hasattr(t_, "to_local") else t_).detach().to(F64).clone()
+                             for (b, name), t_ in self._tensors[gi].items() if name == "param"} for gi in range(self.ng)]
+        self._prev_ref = [{b + 1: blk.w.clone() for b, blk in enumerate(self.refs[gi].blocks)} if self.numeric and self.refs else {}
+                          for gi in range(self.ng)]
         before = [{k: realopt.tensor_hash(v) for k, v in self._tensors[gi].items()} for gi in range(self.ng)]
         steps_before = [realopt.group_step_value(opt, gi) for gi in range(self.ng)]
         if self.flags is not None:
@@ -229,7 +233,7 @@ class Runner:
                 if changed_ and (b, k) not in ok_calls:
                     mism.append((f"g{gi+1}.root_changed_without_successful_computation.b{b}.k{k}", "stored matrix kept", "changed"))
                 if (b, k) in ok_calls and not changed_ and g["kind"] == "shampoo" and draw.get("grad_mode", "dense") == "dense" \
-                        and raised == "none":
+                        and not draw.get("grad_scales") and raised == "none":
                     mism.append((f"g{gi+1}.computed_root_not_stored.b{b}.k{k}", "stored matrix updated", "bitwise unchanged"))
             ob = {"has": True, "reached": True, "step": sv, "stepped": sv != steps_before[gi],
                   "raised": raised if gi == raising_group else "none",
@@ -253,7 +257,10 @@ class Runner:
                 if b in act and ob["raised"] != "none" and name in ("param", "mom", "filt") and changed:
                     mism.append((f"g{gi+1}.changed_on_raise.b{b}.{name}", "unchanged", "changed"))
                 if b in act and ob["raised"] == "none" and ob["stepped"] and not changed and not self.poisoned \
-                        and draw.get("grad_mode", "dense") == "dense":
+                        and draw.get("grad_mode", "dense") == "dense" and not draw.get("grad_scales") \
+                        and draw["dtype"] == "float64" and draw.get("pdtype", "float64") == "float64":
+                    # (a gradient far below the accumulated history - or below the resolution of a low-precision buffer - legitimately
+                    # leaves a buffer bitwise unchanged)
                     hyc = self.concrete_hy(gi)
                     must = (name.startswith("fac") or name in ("graft", "cev")
                             or (name == "filt" and hyc["beta1"] != 0.0))   # momentum may legitimately stay 0 (zero direction)
@@ -356,6 +363,16 @@ class Runner:
                 tol = 1e-4 * max(scale, 1e-30)   # iterative solvers stop at their own tolerance (1e-6 / 1e-8 residual)
             if not (err <= tol) or not math.isfinite(err):
                 out.append((f"g{gi+1}.value.b{b}.{name}", f"max|.|={scale:.6g}", f"abs err {err:.3e} > {tol:.3e}"))
+            elif (name == "param" and self.draw["dtype"] == "float64" and self.draw.get("pdtype", "float64") == "float64"
+                  and b in self._prev_param[gi] and b in self._prev_ref[gi]):
+                # the UPDATE itself, relative to its own size: a step that is tiny next to the parameter (small gradient after a long
+                # history, small lr) is invisible in the comparison above
+                d_got, d_want = got - self._prev_param[gi][b], want - self._prev_ref[gi][b]
+                dscale = float(d_want.abs().max())
+                derr = float((d_got - d_want).abs().max())
+                dtol = (1e-2 if g.get("method") in ("newton", "higher") else 1e-4) * dscale + 1e-14 * max(scale, 1e-300)
+                if not (derr <= dtol):
+                    out.append((f"g{gi+1}.value.b{b}.param_update", f"max|update|={dscale:.6g}", f"abs err {derr:.3e} > {dtol:.3e}"))
         return out
 
 
